@@ -10,7 +10,7 @@
 //! Each graph is built in a fresh `quiver_core::program::Program` through register_tuple /
 //! register_type (which deduplicate structurally; NIL/OK tuples pre-exist at ids 0/1).
 //!
-//! stdout (ndjson): {"id","g","roots","map":[registry ids of roots],
+//! stdout (ndjson): {"id","roots","map":[registry ids of roots],"fmt":[formatted types],
 //!   "compat":[[bool]], "overlap":[[bool]]   is_compatible / types_overlap(roots[i], roots[j])
 //!   "narrow":[{"i","j","g":graph',"a","b","inter":[id]|[],"compl":[id]|[],"src":..,"err":..}]}
 //! `narrow`: quiver_compiler's intersect_types / compute_complement live in a private module,
@@ -367,7 +367,7 @@ fn replay_case(ctx: &Ctx, j: &J) -> J {
             }
         }
     }
-    json!({"id": j["id"], "g": j["g"], "roots": j["roots"], "map": reg,
+    json!({"id": j["id"], "roots": j["roots"], "map": reg,
            "fmt": reg.iter().map(|r| quiver_core::format::format_type_by_id(&program, *r)).collect::<Vec<_>>(),
            "compat": compat, "overlap": overlap, "narrow": narrows})
 }
